@@ -179,7 +179,17 @@ func (n *lazyNode) tryAry() bool {
 	return true
 }
 
+// isNull reports whether the node stands for a JSON null: a decoded null is a
+// nil node, a null supplied as an operation value is a node without raw bytes.
+func (n *lazyNode) isNull() bool {
+	return n == nil || (n.which == eRaw && n.raw == nil)
+}
+
 func (n *lazyNode) equal(o *lazyNode) bool {
+	if n == nil || o == nil {
+		return n.isNull() && o.isNull()
+	}
+
 	if n.which == eRaw {
 		if !n.tryDoc() && !n.tryAry() {
 			if o.which != eRaw {
